@@ -483,6 +483,12 @@ fn run_op(db: &mut FixtureDatabase, op: &Value) -> Value {
                    "skip_plugins": c.skip_plugins})
         }
         "scope_parse" => json!(FixtureScope::parse(s(op, "text")).map(scope_str)),
+        // Rust's own Unicode tables for the characters of a text (oracle for the model)
+        "char_classes" => {
+            let t = s(op, "text");
+            json!({"ws": t.chars().filter(|c| c.is_whitespace()).map(|c| c as u32).collect::<Vec<_>>(),
+                   "alnum": t.chars().filter(|c| c.is_alphanumeric()).map(|c| c as u32).collect::<Vec<_>>()})
+        }
         other => json!({"unknown_op": other}),
     }
 }
